@@ -169,5 +169,86 @@ def install(handler, g):
             bad.append(f"min_absolute_subnormal={f.min_absolute_subnormal}")
         return bool(bad), "; ".join(bad) or "range properties equal the extremes of the value set"
 
+    def replay_c14(rj):
+        from unit_scaling.formats import FPFormat
+
+        ob = rj["obligation"]
+        E, M, _, s_ = parse(ob)
+        s_ = int(s_)
+        D = 23 - M
+        w = rj.get("witness") or {}
+        clause = ob.split("]:", 1)[1]
+        fmt = FPFormat(E, M, "stochastic", 0 if s_ == D else s_)
+        if clause.startswith("spec:"):
+            return False, "specification lemma (no repo code involved); verifier output kept in the replay file"
+        xb, R = ival(w, "x_bits"), ival(w, "R", 0)
+        calls = []
+        real_randint = torch.randint
+
+        def fake_randint(low, high, size, **kw):
+            calls.append((low, high, tuple(size), kw.get("dtype")))
+            return torch.full(tuple(size), R, dtype=kw.get("dtype", torch.int64))
+
+        if xb is None:
+            xb = bits_from_f32(1.3)
+        xv = f32_from_bits(xb)
+        if math.isnan(xv) or math.isinf(xv):
+            return False, "witness outside the precondition (non-finite)"
+        x = torch.tensor([xv, xv], dtype=torch.float32)
+        before = x.clone()
+        torch.randint = fake_randint
+        try:
+            y = fmt.quantise(x)
+        finally:
+            torch.randint = real_randint
+        _, _, mx = consts(E, M)
+        emin = consts(E, M)[0]
+        code = Fraction(float(y[0]))
+        cx = max(-mx, min(mx, Fraction(xv)))
+        lo, hi = neighbours(E, M, cx)
+        info = f"x=bits {xb:#010x} ({xv!r}) R={R} -> {float(y[0])!r}; neighbours {float(lo)!r}, {float(hi)!r}"
+        if clause.startswith("one_random_draw"):
+            return len(calls) != 1, f"{len(calls)} randint calls"
+        if clause.startswith("independent_draw"):
+            return not (len(calls) == 1 and calls[0][2] == tuple(x.shape)), f"randint size {calls and calls[0][2]} vs input shape {tuple(x.shape)}"
+        if clause.startswith("draw_is_uniform"):
+            return not (len(calls) == 1 and calls[0][0] == 0 and calls[0][1] == 2**s_), f"randint range {calls and calls[0][:2]}"
+        if clause.startswith("dtype_and_shape"):
+            return y.dtype != x.dtype or y.shape != x.shape, f"{y.dtype} {tuple(y.shape)}"
+        if clause.startswith("argument_not_modified"):
+            return not torch.equal(before, x), "argument changed" if not torch.equal(before, x) else "unchanged"
+        if clause.startswith("representable_input_never_moved"):
+            return is_repr(E, M, Fraction(xv)) and bits_from_f32(float(y[0])) != xb, info
+        if clause.startswith("representable"):
+            return not is_repr(E, M, code), info
+        if clause.startswith("sign_preserved"):
+            return (bits_from_f32(float(y[0])) >> 31) != (xb >> 31), info
+        if clause.startswith("is_one_of_the_two_neighbours"):
+            return code not in (lo, hi), info
+        if clause.startswith("rounds_away") or clause.startswith("scaled_position"):
+            # exact oracle: position of the (RNE-)scaled value between its neighbours
+            sp = Fraction(2) ** (max(emin, floor_log2(abs(cx)) if cx != 0 else emin) - M)
+            a = abs(cx)
+            if a >= Fraction(2) ** emin:
+                d = (a - abs(lo if cx >= 0 else hi)) / sp * 2**D
+            else:
+                t = a / Fraction(2) ** (emin + 126) / Fraction(2) ** -149  # |cx| / downscale in float32-subnormal units
+                fl = t.__floor__()
+                r = t - fl
+                mq = fl + (1 if (r > Fraction(1, 2) or (r == Fraction(1, 2) and fl % 2 == 1)) else 0)
+                d = Fraction(mq % 2**D)
+                base = (mq - mq % 2**D) * Fraction(2) ** -149 * Fraction(2) ** (emin + 126)
+                lo, hi = (base, base + sp) if cx >= 0 else (-(base + sp), -base)
+            sb = D - s_
+            t_ = int(d) if sb == 0 else (int(d) + 2 ** (sb - 1)) // 2**sb
+            away = R + t_ >= 2**s_
+            near0, far0 = (lo, hi) if cx >= 0 else (hi, lo)
+            expect = far0 if away else near0
+            if d == 0:
+                expect = near0 if not away else far0
+            return code != expect, info + f" d={d} expected {'away' if away else 'toward zero'} -> {float(expect)!r}"
+        return False, "no replay rule for " + clause
+
+    handler(lambda rj: rj["job"].startswith("c14:quantise"))(replay_c14)
     handler(lambda rj: rj["job"].startswith("c13:quantise"))(replay_c13)
     handler(lambda rj: rj["job"].startswith("c13:range"))(replay_range)
